@@ -52,7 +52,7 @@ include!("filter_gen.inc");
 
 /// C06.align: two rows, kept rows keep their order; k-mers, variants and counts stay row-aligned
 fn filter_two_rows<const FT: u8, const AM: bool, const MK: bool, const NG: bool, const UK: bool>() {
-    const C: usize = 3;
+    const C: usize = 2;
     let mut rows = [[0u8; C]; 2];
     let mut i = 0;
     while i < 2 { let mut j = 0; while j < C { rows[i][j] = any_stored_sym(); j += 1; } kani::assume(present::<C>(&rows[i]) >= 1); i += 1; }
@@ -60,6 +60,8 @@ fn filter_two_rows<const FT: u8, const AM: bool, const MK: bool, const NG: bool,
     kani::assume(min_count <= C);
     let kmers = [10u64, 20u64];
     let mut a = mk_array::<2, C>(&kmers, &rows);
+    // exact counts, no empty row: recounting without the ambiguity switch is the identity (lemma decided by C06.cnt)
+    crate::verif_support::counts_exact_lemma(!AM);
     let removed = a.filter(min_count, AM, &ft_of(FT), MK, NG, UK);
     let thr = if min_count > 1 { min_count } else { 1 };
     let mut out = 0;
